@@ -49,6 +49,8 @@ extern uint8_t * g_http_cb_body;
 extern void * g_http_cb_cookie;
 extern int g_http_cb_rv;		/* what the user's callback returns (chosen by the harness) */
 extern unsigned g_http_ncancel;		/* http_request_cancel calls (ghost statement in http.c) */
+extern unsigned g_http_ndie;		/* die() calls (ghost statement in http.c) */
+extern int g_http_envfail;		/* an environment call reported (allocation) failure: wait, write, init, connect */
 extern unsigned g_http_nclose;		/* close() calls */
 extern int g_http_closed_fd;
 extern unsigned g_http_nconncancel;	/* network_connect_cancel calls */
